@@ -142,3 +142,63 @@ def sign_sequence(W, ev, signer_path, live=None):
 
 def version_assume(fnpath, v, field="version"):
     return {("field", ("param", fnpath, 1), field): ("enum", VERSION, v)}
+
+
+def send_loop_provenance(ctx, W):
+    """Where do the destination, the echoed nonce, the index and the path of each response come from?
+    Returns a list of (key, ok, ok_detail, bad_detail, loc)."""
+    P = ctx.prog
+    out = []
+    mr = ctx.fn(MAKE_RESPONSE)
+    ev = W.ev(mr.path)
+    r = ev.ret()
+    role = {}
+    if r[0] == "obj":
+        okb, fields, why = message_built(W, ev, r)
+        for (tg, val, bb) in fields:
+            v0 = values.strip_payload(val)
+            if tg == "INDX":
+                w = le_written(W, v0)
+                if w and w["value"][0] == "param":
+                    role["INDX"] = w["value"][2]
+            elif v0[0] == "param":
+                role[tg] = v0[2]
+    sr = ctx.fn(SEND)
+    sev = W.ev(sr.path)
+    sites = [bb for bb, t in sr.calls() if mr.path in P.call_targets(t)]
+    if len(sites) != 1:
+        raise AnchorMissing("one make_response call in send_responses")
+    args = [W.expand(a) for a in sev.call_args(sites[0])]
+    selfp = ("param", sr.path, 1)
+    REQ = ("field", selfp, "requests")
+
+    def arg(tagname):
+        i = role.get(tagname)
+        return args[i - 1] if i else None
+
+    idx_a = uncast(arg("INDX")) if arg("INDX") is not None else None
+    nonce_a = arg("NONC")
+    path_a = arg("PATH")
+    ie_idx = iter_elem(W, idx_a) if idx_a is not None else None
+    ie_nonce = iter_elem(W, nonce_a) if nonce_a is not None else None
+    okidx = ie_idx is not None and ie_idx["what"] == "index" and ie_idx["container"] == REQ
+    okn = ie_nonce is not None and ie_nonce["what"] == "elem" and ie_nonce["fields"] == ("0",) and ie_nonce["container"] == REQ
+    same = okidx and okn and ie_idx["site"] == ie_nonce["site"]
+    out.append(("index-and-nonce-from-one-element", same, "idx and nonce come from the same requests.iter().enumerate().next() element",
+                "idx (%s) and nonce (%s) are not the index and first component of one element of self.requests" % (values.fmt(idx_a), values.fmt(nonce_a)), sr.loc(sites[0])))
+    okp = is_call(path_a, "MerkleTree::get_paths") and path_a[2][0] == ("field", selfp, "merkle") and uncast(W.expand(path_a[2][1])) == idx_a
+    out.append(("path-for-same-index", okp, "PATH = self.merkle.get_paths(idx) for the same idx",
+                "PATH is %s while INDX is %s" % (values.fmt(path_a), values.fmt(idx_a)), sr.loc(sites[0])))
+    sends = [bb for bb, t in sr.calls() if strip_generics(t["fn"].get("path", "")).endswith("UdpSocket::send_to")]
+    for sb in sends:
+        sargs = [W.expand(a) for a in sev.call_args(sb)]
+        ie = iter_elem(W, sargs[2])
+        okd = ie is not None and ie["what"] == "elem" and ie["fields"] == ("1",) and ie_nonce is not None and ie["site"] == ie_nonce["site"] and ie["container"] == REQ
+        out.append(("destination-from-same-element", okd, "destination = address of the same queued request",
+                    "send_to destination %s is not the address stored with this request" % values.fmt(sargs[2]), sr.loc(sb)))
+        # payload derives from this iteration's make_response
+        pay = sargs[1]
+        okm = values.contains(pay, lambda s: s == sev.call_term(sites[0])) or values.contains(W.expand(sev.call_args(sb)[1]), lambda s: is_call(s, "Responder::make_response"))
+        out.append(("payload-is-this-iterations-response", okm, "the datagram sent encodes this iteration's make_response(..)",
+                    "the datagram sent is %s" % values.fmt(pay), sr.loc(sb)))
+    return out, len(sends)
